@@ -185,7 +185,7 @@ ScanRefs(st, fs, op, f, i) ==
                        ELSE IF s.k = "lazy"
                             THEN (IF w THEN [st EXCEPT !.sym[n].vis = v]
                                   ELSE ScanVisit([st EXCEPT !.sym[n].vis = v], fs, op, s.f))
-                       ELSE IF s.k \in {"undef", "shared"} /\ ~Shared(fs, f)
+                       ELSE IF s.k \in {"undef", "shared"}     \* (a shared object's reference counts: as GNU ld, not lld)
                             THEN [st EXCEPT !.sym[n].weak = s.weak /\ w, !.sym[n].vis = v]
                        ELSE [st EXCEPT !.sym[n].vis = v]
                  IN ScanRefs(st2, fs, op, f, i + 1)
@@ -228,6 +228,13 @@ ShadowClass(fs) ==
 CommonLazyClass(fs) ==
     \E n \in NameSet : \E f, g \in Definers(fs, n) :
         f # g /\ IsCommon(D(fs, f, n)) /\ ~IsCommon(D(fs, g, n)) /\ fs[g].kind = "member"
+
+(* A reference with non-default visibility cannot be satisfied by a shared object; when a shared
+   object nevertheless owns the name, which regular definition (if any) is fetched instead differs
+   between linkers: such configurations are outside the fixpoint theorems (they are still replayed). *)
+VisSharedClass(fs) ==
+    \E n \in NameSet : \E f, g \in FIdx(fs) :
+        IsRefKind(D(fs, f, n)) /\ V(fs, f, n) # "default" /\ Shared(fs, g) /\ IsDefKind(D(fs, g, n))
 
 (* The reference outcome: ElfRule on the sequentially loaded set. *)
 RuleOutcomeOn(fs, op, L) ==
@@ -375,8 +382,8 @@ Analysis(fs, op, wantAll) ==
         loadDiv |-> RegOnly(fs, wantAll) # RegOnly(fs, sl),
         shadow |-> ShadowClass(fs), commonLazy |-> CommonLazyClass(fs),
         thScanElf |-> ScanAgreesWithElfRule(fs, op),
-        thFixpoints |-> RegOnly(fs, w0) = RegOnly(fs, LFP(fs, op)),
-        thLoadDiv |-> sameLoaded \/ ShadowClass(fs) \/ CommonLazyClass(fs),
+        thFixpoints |-> VisSharedClass(fs) \/ RegOnly(fs, w0) = RegOnly(fs, LFP(fs, op)),
+        thLoadDiv |-> sameLoaded \/ ShadowClass(fs) \/ CommonLazyClass(fs) \/ VisSharedClass(fs),
         thDesign |-> sameLoaded => Proj(design, fs) = Proj(rule, fs)]
 
 -----------------------------------------------------------------------------
